@@ -77,14 +77,14 @@ Proof. destruct k; cbn; intros H Hn; try contradiction; now apply qnorm2_normali
 (* ---- reflect ---- *)
 Lemma qcanon_cases (q : quatR) : qcanon RRing Rltb q = q \/ qcanon RRing Rltb q = qopp RRing q.
 Proof. unfold qcanon. destruct (needs_inversion RRing Rltb q); auto. Qed.
-Lemma qreflect_opp_invariant_aux (c : quatR) :
+Lemma qreflect_aux (q c : quatR) : qcanon RRing Rltb q = c ->
   let v := qvec RRing c in 0 < dot3 RRing v v ->
-  qmat RRing (let nv := sqrt (dot3 RRing v v) in let nq := sqrt (qnorm2 RRing c) in
-              let s := q3 c * / nq * / nv in (s * q0 c, s * q1 c, s * q2 c, - (nv * / nq)))
+  qmat RRing (qreflect RRing Rinv sqrt Rltb q)
   = mscal RRing (/ (qnorm2 RRing c * dot3 RRing v v)) (qmat RRing (q3 c * q0 c, q3 c * q1 c, q3 c * q2 c, - dot3 RRing v v)).
 Proof.
-  intros v Hv. cbv zeta.
+  intros Ec v Hv. unfold qreflect. rewrite Ec. cbv zeta. fold v.
   assert (Hq : 0 < qnorm2 RRing c) by (dquat c; subst v; runf; nra).
+  cbn [StarRing.K StarRing.k0 StarRing.k1 StarRing.kadd StarRing.kmul StarRing.ksub StarRing.kopp RRing].
   set (nv := sqrt (dot3 RRing v v)). set (nq := sqrt (qnorm2 RRing c)).
   assert (Hnv : nv * nv = dot3 RRing v v) by (apply sqrt_sqrt; lra).
   assert (Hnq : nq * nq = qnorm2 RRing c) by (apply sqrt_sqrt; lra).
@@ -92,8 +92,9 @@ Proof.
   assert (Hnq0 : nq <> 0) by (intros E; rewrite E in Hnq; lra).
   replace (q3 c * / nq * / nv * q0 c, q3 c * / nq * / nv * q1 c, q3 c * / nq * / nv * q2 c, - (nv * / nq))
     with (qscal RRing (/ (nq * nv)) (q3 c * q0 c, q3 c * q1 c, q3 c * q2 c, - dot3 RRing v v)).
-  2:{ rewrite <- Hnv. generalize nv nq Hnv0 Hnq0. intros a b Ha Hb. dquat c. unf. cbn [StarRing.K StarRing.k0 StarRing.k1 StarRing.kadd StarRing.kmul StarRing.ksub StarRing.kopp RRing]. pair_split; field; auto. }
-  rewrite qmat_scal. f_equal. cbn [K kmul RRing]. rewrite <- Hnv, <- Hnq. field; auto.
+  2:{ rewrite <- Hnv. generalize nv nq Hnv0 Hnq0. intros a b Ha Hb. dquat c. unf.
+      cbn [StarRing.K StarRing.k0 StarRing.k1 StarRing.kadd StarRing.kmul StarRing.ksub StarRing.kopp RRing]. pair_split; field; auto. }
+  rewrite qmat_scal. f_equal. cbn [StarRing.K StarRing.kmul RRing]. rewrite <- Hnv, <- Hnq. field; auto.
 Qed.
 (* reflect = Householder reflection (I - 2 v v^T / v.v) applied after the normalised rotation, v = stored vector part *)
 Theorem reflect_matrix (r : rotR) :
@@ -101,34 +102,23 @@ Theorem reflect_matrix (r : rotR) :
   rmat RRing (r_elem KReflect r)
   = mmul RRing (mscal RRing (/ dot3 RRing v v) (householder RRing v)) (mscal RRing (/ qnorm2 RRing (fst r)) (rmat RRing r)).
 Proof.
-  destruct r as [q f]. cbn [fst]. intros v Hv.
-  unfold r_elem, elem_apply. cbn [fst snd]. unfold qreflect.
+  destruct r as [q f]. cbv zeta. cbn [fst]. set (v := qvec RRing q). intros Hv.
+  unfold r_elem, elem_apply, rmat. cbn [fst snd].
   assert (Hq : 0 < qnorm2 RRing q) by (dquat q; subst v; runf; nra).
-  destruct (qcanon_cases q) as [E|E]; rewrite E.
-  - pose proof (qreflect_opp_invariant_aux q Hv) as A. cbv zeta in A. fold v in A. cbv zeta. rewrite A.
-    pose proof (reflect_householder RRing q) as B. cbv zeta in B. fold v in B.
-    assert (Hd : dot3 RRing v v <> 0) by lra. assert (Hn : qnorm2 RRing q <> 0) by lra.
-    revert B. generalize (householder RRing v). generalize (qmat RRing (q3 q * q0 q, q3 q * q1 q, q3 q * q2 q, - dot3 RRing v v)).
-    unfold rmat. cbn [fst snd]. generalize (qmat RRing q). generalize Hd Hn. generalize (dot3 RRing v v) (qnorm2 RRing q).
-    intros d n Hd' Hn' m m1 hh B.
-    dmat m; dmat m1; dmat hh.
-    unf. cbn [StarRing.K StarRing.k0 StarRing.k1 StarRing.kadd StarRing.kmul StarRing.ksub StarRing.kopp RRing] in *.
-    repeat match goal with H : (_, _) = (_, _) |- _ => injection H; clear H; intros end.
-    destruct f; cbn [negb]; pair_split; field_simplify_eq; auto; nsatz.
-  - assert (Hv' : 0 < dot3 RRing (qvec RRing (qopp RRing q)) (qvec RRing (qopp RRing q))) by (dquat q; subst v; runf; nra).
-    pose proof (qreflect_opp_invariant_aux (qopp RRing q) Hv') as A. cbv zeta in A. cbv zeta. rewrite A.
-    pose proof (reflect_householder RRing q) as B. cbv zeta in B. fold v in B.
-    assert (Hd : dot3 RRing v v <> 0) by lra. assert (Hn : qnorm2 RRing q <> 0) by lra.
-    assert (E1 : dot3 RRing (qvec RRing (qopp RRing q)) (qvec RRing (qopp RRing q)) = dot3 RRing v v) by (dquat q; subst v; runf; ring).
-    assert (E2 : qnorm2 RRing (qopp RRing q) = qnorm2 RRing q) by (dquat q; runf; ring).
-    assert (E3 : qmat RRing (q3 (qopp RRing q) * q0 (qopp RRing q), q3 (qopp RRing q) * q1 (qopp RRing q), q3 (qopp RRing q) * q2 (qopp RRing q), - dot3 RRing (qvec RRing (qopp RRing q)) (qvec RRing (qopp RRing q)))
-                 = qmat RRing (q3 q * q0 q, q3 q * q1 q, q3 q * q2 q, - dot3 RRing v v)) by (dquat q; subst v; runf; pair_split; ring).
-    rewrite E1, E2, E3.
-    revert B. generalize (householder RRing v). generalize (qmat RRing (q3 q * q0 q, q3 q * q1 q, q3 q * q2 q, - dot3 RRing v v)).
-    unfold rmat. cbn [fst snd]. generalize (qmat RRing q). generalize Hd Hn. generalize (dot3 RRing v v) (qnorm2 RRing q).
-    intros d n Hd' Hn' m m1 hh B.
-    dmat m; dmat m1; dmat hh.
-    unf. cbn [StarRing.K StarRing.k0 StarRing.k1 StarRing.kadd StarRing.kmul StarRing.ksub StarRing.kopp RRing] in *.
-    repeat match goal with H : (_, _) = (_, _) |- _ => injection H; clear H; intros end.
-    destruct f; cbn [negb]; pair_split; field_simplify_eq; auto; nsatz.
+  pose proof (reflect_householder RRing q) as B. cbv zeta in B. fold v in B.
+  match type of B with mopp _ (qmat _ ?t) = _ => set (qq := t) in * end.
+  assert (A : qmat RRing (qreflect RRing Rinv sqrt Rltb q) = mscal RRing (/ (qnorm2 RRing q * dot3 RRing v v)) (qmat RRing qq)).
+  { destruct (qcanon_cases q) as [E|E].
+    - exact (qreflect_aux q q E Hv).
+    - assert (Hv' : 0 < dot3 RRing (qvec RRing (qopp RRing q)) (qvec RRing (qopp RRing q))) by (dquat q; subst v; runf; nra).
+      rewrite (qreflect_aux q (qopp RRing q) E Hv').
+      assert (E1 : dot3 RRing (qvec RRing (qopp RRing q)) (qvec RRing (qopp RRing q)) = dot3 RRing v v) by (dquat q; subst v; runf; ring).
+      assert (E2 : qnorm2 RRing (qopp RRing q) = qnorm2 RRing q) by (dquat q; runf; ring).
+      rewrite E1, E2. f_equal. subst qq. dquat q. subst v. runf. pair_split; ring. }
+  rewrite A, mmul_mscal.
+  replace (@kmul RRing (/ dot3 RRing v v) (/ qnorm2 RRing q)) with (/ (qnorm2 RRing q * dot3 RRing v v))
+    by (cbn [StarRing.K StarRing.kmul RRing]; rewrite Rinv_mult; ring).
+  destruct f; cbn [negb].
+  - now rewrite mmul_opp_r, <- B, mopp_mopp.
+  - now rewrite mopp_mscal, B.
 Qed.
